@@ -5,3 +5,6 @@ check("C19", "exploration", "runtime monitoring: differential oracle (longest-pr
 check("C18", "exploration", "runtime monitoring: reference-map oracle over recorded lookup/fetch events + Go race detector",
       "Thousands of generated histories of block events, hit/miss/failed lookups and cleaning runs against the real cache service, judged step by step against a reference map and the header provider's call counter; a concurrent variant runs under -race. Held on the histories explored.",
       "Handlers and clean job are driven through captured callbacks (fake events provider / scheduler); chain time is a virtual clock.")
+check("C10", "exploration", "runtime monitoring: differential oracle (reference resolver from the documented precedence) over grammar-generated documents + round-trip monitor",
+      "Tens of thousands (quick) of (document, validator) pairs from a grammar over the presence lattice are resolved by the real v2/legacy code and by an independent reference written from the documentation, and again after Marshal/Unmarshal; held on what was generated.",
+      "Reference resolver (DESIGN.md A.1) is the trusted base; top-level bare alternation in account expressions is excluded (judged under C13).")
